@@ -187,6 +187,14 @@ pub fn eval(ctx: &Ctx, case: &Case) {
                 }
                 other => ctx.violation("Sm2PrivateKey::to_pkcs8_der", &format!("not-ok/{}", tag), gdbg(&other.map(|r| r.map(|_| ()))), cj()),
             }
+            // PKCS#8 documents from an independent encoder: embedded public key uncompressed / compressed / absent,
+            // with and without the optional curve parameters (all are what other tools emit)
+            for (pubform, pb) in [("uncompressed-pub", Some(sm2::encode_point(&want, false))), ("compressed-pub", Some(sm2::encode_point(&want, true))), ("no-pub", None)] {
+                for with_params in [false, true] {
+                    let doc = der::pkcs8_encode(&cand(&d), pb.as_deref(), with_params);
+                    same_priv(ctx, "Sm2PrivateKey::from_pkcs8_der", &format!("reference-pkcs8/{}/{}/{}", pubform, if with_params { "params" } else { "no-params" }, tag), guard(|| es(Sm2PrivateKey::from_pkcs8_der(&doc))), &d, &cj);
+                }
+            }
             for (le, name) in [(LineEnding::LF, "LF"), (LineEnding::CRLF, "CRLF")] {
                 ctx.call();
                 match guard(|| es(sk.to_pkcs8_pem(le))) {
